@@ -50,6 +50,10 @@ def run(ck, ctx):
     ck.nd("prefix-stability and encode/decode identity for all values (needs execution or proof)")
     ck.assume("a dominating comparison against the input length is taken as a bound (its strength is not proven)")
     ck.rule("R15.13", INCOMPLETE_TEXT)
+    ck.rule("R15.15", "nested replies are encoded depth-first: in every RespValue encoder the Array arm encodes its elements by calling the encoder "
+                      "itself on each element, in order (a loop or fold over the elements whose body is the recursive call) - an encoder that defers "
+                      "children to a work list emits a later sibling before a nested array's own elements, and `[[a,b],OK]` decodes as `[[OK,a],b]` "
+                      "(EXEC replies, nested Lua tables)")
     ck.rule("R15.14", "the terminator scan gives up one byte at a time: in the line-terminator searches of both decoders a candidate `\\r` that is "
                       "not followed by `\\n` moves the resume position to candidate + 1 (the byte after a lone CR can itself be the CR of the real "
                       "terminator: `+\\r\\r\\n` must decode, and two frames must never be merged into one)")
@@ -69,6 +73,7 @@ def run(ck, ctx):
         _r1512(ck, prog, cfg)
         incomplete_rule(ck, prog, cfg, "R15.13")
         _r1514(ck, prog, cfg)
+        _r1515(ck, prog, cfg)
         _bounds.rule(ck, prog, cfg, "R15.11", ("src/redis/resp.rs", "src/redis/resp_optimized.rs", "src/production/connection_optimized.rs"),
                      "a frame that is split by the network right there (or a malformed one)", floor=12, tag=_tag(cfg))
     _r156(ck, ctx)
@@ -925,3 +930,39 @@ def _r1514(ck, prog, cfg):
             n += 1
         ck.ok("R15.14", "%s::find_crlf:scanned%s" % (owner, _tag(cfg)), detail="%d loop-carried position updates; enumerating adaptors: %s" % (k, enum_))
     ck.floor("R15.14" + _tag(cfg), n, 1)
+
+
+def _r1515(ck, prog, cfg):
+    encs = [f for f in prog.lib_fns() if "{closure" not in f.id and "encode" in f.short
+            and any(isinstance(l, str) and re.match(r"&(redis::resp::RespValue|redis::resp_optimized::RespValueZeroCopy)$", l) for l in f.locals[1:1 + f.d["argc"]])]
+    n = 0
+    for e in encs:
+        ename = e.short if e.short != "encode" else e.id.split("::")[-2] + "::encode"
+        sw = None
+        for b in sorted(e.reachable_blocks()):
+            si = switch_info(e, b)
+            if si and si["kind"] == "discr" and re.search(r"resp(_optimized)?::RespValue(ZeroCopy)?$", si["ty"]):
+                sw = (b, si)
+                break
+        if sw is None:
+            continue
+        b0, si = sw
+        names = [v["n"] for v in prog.adts[si["ty"]]["variants"]]
+        arr = [tg for v, tg in e.term(b0)["cases"] if names[int(v)] == "Array"]
+        if not arr:
+            continue
+        n += 1
+        arm = {x for x in e.reachable_blocks() if e.dominates(arr[0], x)}
+        rec = [b for b, t in e.calls() if b in arm and callee(t) == e.id]
+        for k_ in prog.children(e):
+            if any(callee(t) == e.id for _, t in k_.calls()):
+                # the closure must be created inside the Array arm
+                for b, i, st in e.stmts():
+                    if b in arm and st["rv"]["k"] == "agg" and st["rv"].get("ak") == "closure" and st["rv"].get("n") == k_.id:
+                        rec.append(b)
+        queues = [callee(t).rsplit("::", 1)[-1] for b, t in e.calls() if is_callee(t, r"VecDeque::<.*>::(push_back|push_front|pop_front|pop_back|extend)$")]
+        ck.check(bool(rec) and not queues, "R15.15", "%s:array-arm-recurses%s" % (ename, _tag(cfg)),
+                 "the Array arm of %s %s: elements of a nested array are not written completely before the next sibling, so a reply with a nested "
+                 "array followed by another element decodes to a different value" % (ename, "does not call the encoder on its elements" if not rec else "routes elements through a work list (%s)" % queues[:2]),
+                 e.where(e.term(b0)["ln"]), detail="recursive call per element inside the Array arm")
+    ck.floor("R15.15" + _tag(cfg), n, 3)
